@@ -301,6 +301,12 @@ func runC19(r *simkit.R) {
 		if !onSrc || handed[w.addr(id)] {
 			continue
 		}
+		if strings.HasPrefix(before.status[id], "removed") {
+			// some shard already knew a tombstone of it: engine-wide it was not an available
+			// object before the evacuation (and (3) checks that it stays removed)
+			r.Probe("object served by a source shard was already removed on another shard")
+			continue
+		}
 		ok := false
 		for i := range w.shards {
 			if !isSrc[i] && after.views[[2]int{i, id}].avail {
